@@ -85,6 +85,18 @@ Init ==
         LET prog == Place(pl, ChainIf(tv, hasel)) IN
         cs = [fam |-> "chain", name |-> pl, ctx |-> "chain", prog |-> prog, data |-> EmptyScope, tv |-> tv, hasel |-> hasel,
               res |-> Run(prog, WithHelpers(EmptyScope), EmptyScope, ""), want |-> <<>>]
+  \* chains whose branch bodies are completely empty (only the else block has text)
+  \/ \E n \in 1..MaxN : \E tv \in [1..n -> BOOLEAN], pl \in {"top", "fn"} :
+        LET prog == Place(pl, IfChain(Cond(1, tv[1]), <<>>, [i \in 1..(n - 1) |-> [c |-> Cond(i + 1, tv[i + 1]), b |-> <<>>]], <<Text(<<"Z">>)>>, TRUE)) IN
+        cs = [fam |-> "emptychain", name |-> pl, ctx |-> "chain", prog |-> prog, data |-> EmptyScope, tv |-> tv, hasel |-> TRUE,
+              res |-> Run(prog, WithHelpers(EmptyScope), EmptyScope, ""), want |-> <<>>]
+  \* two values tested one after the other in ONE render (a verdict about one value must not carry over to the next)
+  \/ \E k1 \in KindPool, k2 \in KindPool, ctx \in {"if", "not"} :
+        LET X(v) == IF ctx = "if" THEN Emit(IfElse(Id(v), T, Fv)) ELSE Emit(Not(Id(v)))
+            prog == <<X("x"), Text(<<"|">>), X("y"), Text(<<"|">>), X("x")>> IN
+        cs = [fam |-> "pair", name |-> k1.n \o "," \o k2.n, ctx |-> ctx, prog |-> prog, data |-> [x |-> k1.v, y |-> k2.v],
+              res |-> Run(prog, WithHelpers([x |-> k1.v, y |-> k2.v]), EmptyScope, ""),
+              want |-> KindText(ctx, ~Falsy(k1.v)) \o <<"|">> \o KindText(ctx, ~Falsy(k2.v)) \o <<"|">> \o KindText(ctx, ~Falsy(k1.v))]
   \/ \E n \in 1..MaxN : \E tv \in [1..n -> BOOLEAN], hasel \in BOOLEAN :
         LET prog == Place("top", ChainIfB(tv, hasel, TRUE)) IN
         cs = [fam |-> "failchain", name |-> "top", ctx |-> "chain", prog |-> prog, data |-> EmptyScope, tv |-> tv, hasel |-> hasel,
@@ -98,12 +110,19 @@ RECURSIVE PiecesText(_)
 PiecesText(ps) == IF ps = <<>> THEN <<>> ELSE Head(ps).s \o PiecesText(Tail(ps))
 
 \* kind family: the reference semantics renders what the statement says, in all six contexts
-KindTheorem == cs.fam = "kind" => (cs.res.k = "out" /\ PiecesText(cs.res.pieces) = cs.want)
+KindTheorem == cs.fam \in {"kind", "pair"} => (cs.res.k = "out" /\ PiecesText(cs.res.pieces) = cs.want)
+
 
 \* chain family: exactly the first truthy branch (else block, or nothing); conditions evaluated = prefix
 ChainBody(tv, hasel) == LET f == FirstTrue(tv) IN IF f > 0 THEN <<Markers[f]>> ELSE IF hasel THEN <<"Z">> ELSE <<>>
 ChainEvaluated(tv) == LET f == FirstTrue(tv) IN IF f > 0 THEN f ELSE Len(tv)
 Reps(pl) == IF pl = "for" THEN 2 ELSE 1
+\* empty bodies: the first truthy condition ends the chain with nothing rendered; later conditions are not evaluated
+EmptyChainTheorem ==
+  cs.fam = "emptychain" =>
+    /\ cs.res.k = "out"
+    /\ PiecesText(cs.res.pieces) = <<"[">> \o (IF FirstTrue(cs.tv) > 0 THEN <<>> ELSE <<"Z">>) \o <<"]">>
+    /\ Len(cs.res.log) = ChainEvaluated(cs.tv)
 ChainTheorem ==
   cs.fam = "chain" =>
     /\ cs.res.k = "out"
